@@ -121,6 +121,56 @@ def random_big_scene(rng, spliced=False):
     return {"L": length, "circ": circ, "cutoff": 0, "locs": locs, "hits": hits}
 
 
+def _leaf(profile):
+    return {"k": "id", "neg": False, "p": profile, "s": 0, "opts": [], "args": []}
+
+
+def extenders_around_origin(rng):
+    """ a ring on which a chain of anchoring genes runs over the origin (or sits just beside it) with extender genes on both
+        sides, some within the cutoff of the nearest core gene only; one rule `a EXTENDERS b` (and sometimes a second, plain
+        rule) """
+    length = rng.choice([24, 30, 41])
+    cutoff = rng.choice([2, 3, 4])
+    shift = rng.randrange(0, length)
+
+    def gene(start, size=1):
+        first = (start + shift) % length
+        if first + size <= length:
+            parts = [[first, first + size]]
+        else:
+            parts = [[first, length], [0, first + size - length]]
+        strand = rng.choice([1, -1])
+        return {"parts": parts[::-1] if strand == -1 else parts, "strand": strand}
+
+    # laid out on a line first (positions relative to the first anchoring gene), then rotated so that the origin falls
+    # anywhere in or beside the chain
+    locs, hits, pos = [], [], 10
+    for _ in range(rng.choice([1, 2, 2, 3])):
+        size = rng.choice([1, 2])
+        locs.append(gene(pos, size))
+        hits.append([{"p": "a", "s": 60}])
+        pos += size + rng.randrange(0, cutoff)
+    after = pos - 1
+    for _ in range(rng.choice([1, 2])):
+        after += rng.randrange(1, cutoff + 1)
+        locs.append(gene(after))
+        hits.append([{"p": "b", "s": 30}])
+        after += 1
+    before = 10
+    for _ in range(rng.choice([0, 1, 2])):
+        before -= rng.randrange(1, cutoff + 1) + 1
+        locs.append(gene(before))
+        hits.append([{"p": "b", "s": 30}])
+    order = sorted(range(len(locs)), key=lambda i: (min(p[0] for p in locs[i]["parts"]), locs[i]["parts"]))
+    scene = {"L": length, "circ": True, "cutoff": 0, "locs": [locs[i] for i in order], "hits": [hits[i] for i in order]}
+    if len({str(loc["parts"]) for loc in scene["locs"]}) < len(scene["locs"]):
+        return None
+    rules = [{"name": "r1", "cutoff": cutoff, "nbhd": rng.choice([1, 2, 4]), "cond": _leaf("a"), "hasExt": True, "ext": _leaf("b"), "sup": []}]
+    if rng.random() < 0.3:
+        rules.append({"name": "r2", "cutoff": rng.choice([1, 2]), "nbhd": 1, "cond": _leaf("b"), "hasExt": False, "ext": _leaf("a"), "sup": []})
+    return {"scene": scene, "rules": rules, "scale": rng.choice([1, 1000]), "sampled": True}
+
+
 def scale_rules(rng, rules, factor_pool=(1, 2, 3)):
     """ larger distances for the larger random records """
     out = []
@@ -185,6 +235,10 @@ def build_cases(ctx, rng, rules, genes):
         scene = random_big_scene(rng)
         ruleset = scale_rules(rng, make_ruleset(rng, rules, rng.choice([1, 2, 3])))
         cases.append({"scene": scene, "rules": ruleset, "scale": rng.choice([1, 1000]), "sampled": True})
+    for _ in range(400 if ctx.quick else 10000):
+        case = extenders_around_origin(rng)
+        if case:
+            cases.append(case)
     # rings with genes in two exons (a core may start or end with an intron, the origin may lie inside one)
     for _ in range(300 if ctx.quick else 8000):
         scene = random_big_scene(rng, spliced=True)
